@@ -7,8 +7,9 @@
 //   visit_stmt                           <- unit visit_v2   (needs the environment hypothesis env_ok, gives vframe)
 // New explicit hypotheses (requires of the three entry points, re-established as ensures, so they are INDUCTIVE over
 // a sequence of analyses): env_ok (prelude/visit_env.rs), li_cache_wf(line_index_cache), canon_cache_wf(
-// canonical_path_cache); and, per call, hash_collides_with_nothing(content@) (H-ideal of unit memo_keys: the text
-// analysed collides with no other text -- NOT re-established, it is a hypothesis about each text).
+// canonical_path_cache); and, per call, li_no_collision(line_index_cache, canon(file), content@) (H-ideal of unit memo_keys: the text
+// analysed does not collide with the text the cached line index of the file was built from -- NOT re-established, it
+// is a hypothesis about each (state, text) pair; hash_collides_with_nothing(text) implies it).
 // The database struct lists every field except ast_cache (frames: prelude/index_dbspecs_all.rs, visit_env.rs).
 use rustpython_parser::{parse, Mode};
 use rustpython_parser::ast::{Stmt, Expr, Keyword, Identifier, Constant, ExceptHandler, ExprCall, Alias, Arguments, ArgWithDefault};
@@ -71,7 +72,6 @@ use pre::*;
 /// canonicalisation of a path: what unit memo_keys PROVES get_canonical_path to return under canon_cache_wf --
 /// `path.canonicalize()` in the ONE file-system state fs_canonical (A4), else the path itself
 pub open spec fn canon(p: PV) -> PV { canon_now(p) }
-pub const MAX_FILE_CACHE_SIZE: usize = 2000;
 
 pub assume_specification[ rustpython_parser::parse ](source: &str, mode: rustpython_parser::Mode, source_path: &str) -> (r: Result<rustpython_parser::ast::Mod, rustpython_parser::ParseError>)
     ensures match r {
@@ -107,7 +107,9 @@ impl FixtureDatabase {
     requires old(self).version() < u64::MAX,
         // v2: environment hypothesis, cache invariants, and the H-ideal hypothesis for the text analysed
         old(self).env_ok(), li_cache_wf(old(self).line_index_cache.m()), canon_cache_wf(old(self).canonical_path_cache.m()),
-        hash_collides_with_nothing(content@),
+        // H-ideal of unit memo_keys, for THIS call only: the line index cached for this file (if any) was built from a
+        // text that does not collide with `content` (implied by hash_collides_with_nothing(content@): memokeys_l2.rs)
+        li_no_collision(old(self).line_index_cache.m(), canon(pbv(&file_path)), content@),
         // no wrap-around of the u64 version counter during this analysis (one bump per recorded definition)
         parse_ok(content@) ==> old(self).version() + 1 + stmts_vdefs(body_of(ast_of(content@)), canon(pbv(&file_path)), content@).len() <= u64::MAX,
     ensures
@@ -141,7 +143,7 @@ impl FixtureDatabase {
         // frames of the index-maintenance callees (rest() over all non-index fields) and of the direct map writes
         assert(self.line_index_cache == e0.line_index_cache && self.canonical_path_cache == e0.canonical_path_cache);
         assert(self.env_ok());
-        lemma_no_collision_from_collides_with_nothing(self.line_index_cache.m(), Map::<PV, AstEntry>::empty(), f, content@);
+        assert(f == f0 && li_no_collision(self.line_index_cache.m(), f, content@));
     }
     let ghost d0 = self.defs();
     let ghost fd0 = self.fdefs();
@@ -208,7 +210,9 @@ impl FixtureDatabase {
     requires old(self).version() < u64::MAX,
         // v2: environment hypothesis, cache invariants, and the H-ideal hypothesis for the text analysed
         old(self).env_ok(), li_cache_wf(old(self).line_index_cache.m()), canon_cache_wf(old(self).canonical_path_cache.m()),
-        hash_collides_with_nothing(content@),
+        // H-ideal of unit memo_keys, for THIS call only: the line index cached for this file (if any) was built from a
+        // text that does not collide with `content` (implied by hash_collides_with_nothing(content@): memokeys_l2.rs)
+        li_no_collision(old(self).line_index_cache.m(), canon(pbv(&file_path)), content@),
         parse_ok(content@) ==> old(self).version() + 1 + stmts_vdefs(body_of(ast_of(content@)), canon(pbv(&file_path)), content@).len() <= u64::MAX,
     ensures
         // the public entry points are exactly analyze_file_internal with cleanup_previous = true: no shortcut, no extra work
@@ -237,7 +241,9 @@ impl FixtureDatabase {
     requires old(self).version() < u64::MAX,
         // v2: environment hypothesis, cache invariants, and the H-ideal hypothesis for the text analysed
         old(self).env_ok(), li_cache_wf(old(self).line_index_cache.m()), canon_cache_wf(old(self).canonical_path_cache.m()),
-        hash_collides_with_nothing(content@),
+        // H-ideal of unit memo_keys, for THIS call only: the line index cached for this file (if any) was built from a
+        // text that does not collide with `content` (implied by hash_collides_with_nothing(content@): memokeys_l2.rs)
+        li_no_collision(old(self).line_index_cache.m(), canon(pbv(&file_path)), content@),
         parse_ok(content@) ==> old(self).version() + 1 + stmts_vdefs(body_of(ast_of(content@)), canon(pbv(&file_path)), content@).len() <= u64::MAX,
     ensures
         // the public entry points are exactly analyze_file_internal with cleanup_previous = false: no shortcut, no extra work
@@ -268,7 +274,9 @@ impl FixtureDatabase {
     requires old(self).version() < u64::MAX,
         // v2: environment hypothesis, cache invariants, and the H-ideal hypothesis for the text analysed
         old(self).env_ok(), li_cache_wf(old(self).line_index_cache.m()), canon_cache_wf(old(self).canonical_path_cache.m()),
-        hash_collides_with_nothing(content@),
+        // H-ideal of unit memo_keys, for THIS call only: the line index cached for this file (if any) was built from a
+        // text that does not collide with `content` (implied by hash_collides_with_nothing(content@): memokeys_l2.rs)
+        li_no_collision(old(self).line_index_cache.m(), canon(pbv(&file_path)), content@),
         // no wrap-around of the u64 version counter during this analysis (one bump per recorded definition)
         parse_ok(content@) ==> old(self).version() + 1 + stmts_vdefs(body_of(ast_of(content@)), canon(pbv(&file_path)), content@).len() <= u64::MAX,
     ensures parse_ok(content@) ==> final(self).uses() == old(self).uses(),
@@ -283,7 +291,7 @@ impl FixtureDatabase {
         // frames of the index-maintenance callees (rest() over all non-index fields) and of the direct map writes
         assert(self.line_index_cache == e0.line_index_cache && self.canonical_path_cache == e0.canonical_path_cache);
         assert(self.env_ok());
-        lemma_no_collision_from_collides_with_nothing(self.line_index_cache.m(), Map::<PV, AstEntry>::empty(), f, content@);
+        assert(f == f0 && li_no_collision(self.line_index_cache.m(), f, content@));
     }
     let ghost d0 = self.defs();
     let ghost fd0 = self.fdefs();
@@ -431,6 +439,7 @@ impl FixtureDatabase {
 /// canary: "the hypotheses of an analysis (environment, cache invariants, H-ideal for the text) are contradictory"
 pub proof fn canary_analyze_hypotheses_contradictory(db: FixtureDatabase, t: Seq<char>)
     requires db.env_ok(), li_cache_wf(db.line_index_cache.m()), canon_cache_wf(db.canonical_path_cache.m()), hash_collides_with_nothing(t),
+        forall|f: PV| li_no_collision(db.line_index_cache.m(), f, t),
     ensures false,
 {}
 } // verus!
